@@ -1,7 +1,7 @@
 //! Program generators for the arena driver: deterministic enumerators derived
 //! from the model's case analysis, plus seeded random programs.
 
-use crate::arena::{Clos, Op, Program};
+use crate::arena::{Clos, MultiProgram, Op, Program};
 use rand::rngs::StdRng;
 use rand::{Rng, SeedableRng};
 
@@ -247,4 +247,93 @@ pub fn by_name(name: &str, tier: &str, seed: u64) -> Vec<Program> {
         "random" => random(if thorough { 4000 } else { 300 }, if thorough { 200 } else { 120 }, seed),
         _ => panic!("unknown generator {name}"),
     }
+}
+
+// ------------------------------------------------------------ multi-arena programs (C20)
+
+fn short_programs() -> Vec<Vec<Op>> {
+    use Op::*;
+    let new = New { cap: None, fallible: false };
+    vec![
+        vec![new.clone(), l(0, 1), l(0, 8)],
+        vec![new.clone(), l(8, 8), l(0, 1), Reset],
+        vec![new.clone(), l(0, 16), l(500, 1), l(3, 2)],
+        vec![New { cap: Some(100), fallible: true }, l(24, 8), Dealloc { b: 0 }, l(0, 4)],
+        vec![new.clone(), Reset, l(0, 1), Iter],
+        vec![new.clone(), Limit { lim: Some(50) }, l(0, 2), l(60, 1)],
+        vec![new.clone(), l(0, 1), Shrink { b: 0, size: 0, align: 1 }, Dealloc { b: 0 }],
+        vec![new.clone(), TryWith { ty: 0, ety: 0, ok: false, clos: Clos::Nothing, fallible: true }, l(1, 1)],
+        vec![new.clone(), l(5000, 16), l(1, 1), Reset, l(2, 2)],
+    ]
+}
+
+fn merges(a: usize, b: usize) -> Vec<Vec<usize>> {
+    // all order-preserving interleavings of a steps of arena 0 and b steps of arena 1
+    fn rec(a: usize, b: usize, cur: &mut Vec<usize>, out: &mut Vec<Vec<usize>>) {
+        if a == 0 && b == 0 {
+            out.push(cur.clone());
+            return;
+        }
+        if a > 0 {
+            cur.push(0);
+            rec(a - 1, b, cur, out);
+            cur.pop();
+        }
+        if b > 0 {
+            cur.push(1);
+            rec(a, b - 1, cur, out);
+            cur.pop();
+        }
+    }
+    let mut out = Vec::new();
+    rec(a, b, &mut Vec::new(), &mut out);
+    out
+}
+
+/// two arenas on one thread in every order-preserving merge, and the same pairs on two threads
+pub fn multi(tier: &str, seed: u64) -> Vec<MultiProgram> {
+    let thorough = tier == "thorough";
+    let progs = short_programs();
+    let mut out = Vec::new();
+    let mut rng = StdRng::seed_from_u64(seed ^ 0x2020);
+    for (i, pa) in progs.iter().enumerate() {
+        for (j, pb) in progs.iter().enumerate() {
+            if !thorough && (i + 2 * j) % 3 != 0 {
+                continue;
+            }
+            let ma = MAS[(i + j) % 5];
+            // +1: the implicit final drop of each arena takes part in the interleaving
+            let ms = merges(pa.len() + 1, pb.len() + 1);
+            for (k, m) in ms.iter().enumerate() {
+                if !thorough && k % 7 != (i + j) % 7 {
+                    continue;
+                }
+                out.push(MultiProgram { ma, arenas: vec![pa.clone(), pb.clone()], threads: vec![0, 0], schedule: m.clone(), tag: "interleave".into() });
+            }
+            // solo runs for comparison of relative placement are implied: each arena's projection is
+            // validated by the single-arena specs; on threads:
+            out.push(MultiProgram { ma, arenas: vec![pa.clone(), pb.clone()], threads: vec![1, 2], schedule: vec![], tag: "threads".into() });
+            // hand-over: an arena created and used on the main thread, then moved (OnThread) while another
+            // thread runs its own arena
+            let mut moved = pa.clone();
+            moved.push(Op::OnThread { ops: vec![l(8, 8), Op::Reset, l(0, 1)] });
+            out.push(MultiProgram { ma, arenas: vec![moved, pb.clone()], threads: vec![0, 0], schedule: vec![], tag: "handover".into() });
+        }
+    }
+    // many threads, random short programs
+    for _ in 0..if thorough { 200 } else { 30 } {
+        let nt = rng.gen_range(2..5);
+        let mut arenas = Vec::new();
+        let mut threads = Vec::new();
+        for t in 0..nt {
+            arenas.push(progs[rng.gen_range(0..progs.len())].clone());
+            threads.push(t + 1);
+            if rng.gen_bool(0.3) {
+                arenas.push(progs[rng.gen_range(0..progs.len())].clone());
+                threads.push(t + 1);
+            }
+        }
+        out.push(MultiProgram { ma: MAS[rng.gen_range(0..5)], arenas, threads, schedule: vec![], tag: "threads".into() });
+    }
+    out
 }
